@@ -95,6 +95,11 @@ __CPROVER_requires(aggr != NULL && aggr == g_vl_prev && endLevel != NULL && root
 __CPROVER_requires(!g_vl_fail && !g_vl_na && g_vl_aggs + 1 == g_vl_calls)
 __CPROVER_requires(startLevel == g_vl_level)
 __CPROVER_requires(g_vl_aggs % 2 == 0 ? g_vr_h_ref[VR_H_NEW1] == 0 : g_vr_h_ref[VR_H_NEW2] == 0)
+/* the pointer output is stated FIRST and unconditionally: a pointer-typed assigns target of a replaced contract is havocked with one
+ * shared symbol (__invalid_ptr) that the loop havoc of the caller's pointer locals uses too - leaving the 'unchanged' case to an assumed
+ * equality made 'aggregation of a later chain fails' infeasible (found with seed C11-3; REACH guard in the harness) */
+__CPROVER_ensures(__CPROVER_pointer_equals(*root, __CPROVER_return_value == KSI_OK
+		? (__CPROVER_old(g_vl_aggs) % 2 == 0 ? (void *)&g_vr_h[VR_H_NEW1] : (void *)&g_vr_h[VR_H_NEW2]) : (void *)__CPROVER_old(*root)))
 __CPROVER_ensures(IMPLIES(__CPROVER_return_value == KSI_OK, g_vl_aggs == __CPROVER_old(g_vl_aggs) + 1 && !g_vl_na &&
 		*endLevel == g_vl_level && 0 <= g_vl_level && g_vl_level <= 0xff &&
 		(__CPROVER_old(g_vl_aggs) % 2 == 0
